@@ -474,23 +474,23 @@ def run_feature_dispatch(prog, rep, multi):
     return rule
 
 
-def run_forward(prog, rep, which=('Tag', 'MultiTag')):
+def run_forward(prog, rep, which=('Tag', 'MultiTag'), mode='RangeMatch', rid='R-FORWARD', floor=12):
     """a function that is given a RangeMatch mode hands exactly that mode to every callee that takes one"""
-    rule = rep.rule('R-FORWARD', 'every retrieval function passes its RangeMatch argument on to each callee that takes a RangeMatch (no defaulted or constant mode in between)', floor=12)
+    rule = rep.rule(rid, 'every function passes its %s argument on to each callee that takes a %s (no defaulted or constant mode in between)' % (mode, mode), floor=floor)
     n = 0
     for f in sorted(prog.funcs.values(), key=lambda f: (f.file, f.line)):
-        if f.body is None or not f.q.startswith('nix::') or f.q.startswith('nix::hdf5::'):
+        if f.body is None or f.q.startswith('nix::hdf5::') or f.q.startswith('std::') or f.q.startswith('boost::'):
             continue
-        mp = [p for p in f.params if 'RangeMatch' in p['type']]
+        mp = [p for p in f.params if mode in p['type'] and 'vector' not in p['type']]
         if len(mp) != 1:
             continue
-        if not any(w in f.sig or w in f.q for w in which):
+        if which and not any(w in f.sig or w in f.q for w in which):
             continue
         mv = ('v', mp[0]['lid'], mp[0]['name'])
         for c in f.calls():
             sig = split_sig_types(c.callee.get('sig') or '()')
-            idx = [i for i, t in enumerate(sig) if 'RangeMatch' in t]
-            if not idx or not (c.callee.get('q') or '').startswith('nix::'):
+            idx = [i for i, t in enumerate(sig) if mode in t and 'vector' not in t]
+            if not idx or not ((c.callee.get('q') or '').startswith('nix::') or prog.resolve_call(c)):
                 continue
             args = real_args(c)
             j = idx[0]
@@ -506,8 +506,8 @@ def run_forward(prog, rep, which=('Tag', 'MultiTag')):
                 rule.bad(key, rep.where(c), f.label(), 'passes %s as the mode instead of its own parameter %s' % (a.src(40), mp[0]['name']))
             else:
                 rule.ok(key, rep.where(c), f.label(), 'forwards %s' % mp[0]['name'])
-    if n < 12:
-        raise AnalysisBroken('R-FORWARD: only %d mode-forwarding call sites found' % n)
+    if n < floor:
+        raise AnalysisBroken('%s: only %d mode-forwarding call sites found' % (rid, n))
     return rule
 
 
